@@ -105,13 +105,13 @@ Proof. intro C. unfold gc_db. rewrite C. reflexivity. Qed.
 Lemma fold_del_map (l : list ckrec) f : fold_left (fun f c => fs_del f (c_wal c)) l f = fold_left fs_del (map c_wal l) f.
 Proof. revert f. induction l as [|y l IH]; intro f; [reflexivity|]. cbn [fold_left map]. apply IH. Qed.
 
-Theorem save_ok_removes_pending_wals w x f c :
-  snd (save_list_f w x f) = true -> In c (x_pending x) ->
-  fs_has (g_fs (fst (fst (save_list_f w x f)))) (c_wal c) = false.
+Theorem save_ok_removes_pending_wals w x f c n :
+  snd (save_list_f w x f) = true -> In c (x_pending x) -> In n (c_allw c) ->
+  fs_has (g_fs (fst (fst (save_list_f w x f)))) n = false.
 Proof.
   unfold save_list_f. destruct (f =? 1); [discriminate|].
   destruct ((f =? 2) && negb (match x_pending x with [] => true | _ => false end)); [discriminate|].
-  intros _ Hc. unfold save_destroy. cbn [fst snd set_fs g_fs]. rewrite fold_del_map. apply fold_del_gone. apply in_map. exact Hc.
+  intros _ Hc Hn. unfold save_destroy. cbn [fst snd set_fs g_fs]. apply fold_del_gone. apply in_flat_map. exists c. auto.
 Qed.
 
 (* a Save that returns an error has deleted nothing: at most the checkpoints file itself was rewritten *)
@@ -126,12 +126,12 @@ Qed.
 
 Theorem retain_saved_removes_dropped_wals w d ids f x c :
   get_db w d = Some x -> retain_empty w d ids = false -> retain_ok w d ids f = true -> In c (x_ckpts x) -> retain_keeps ids c = false ->
-  fs_has (g_fs (step_retain w d ids f)) (c_wal c) = false.
+  forall n, In n (c_allw c) -> fs_has (g_fs (step_retain w d ids f)) n = false.
 Proof.
-  intros G NE OK Hc NK. unfold step_retain, retain_ok, retain_empty in *. rewrite G in *.
+  intros G NE OK Hc NK n Hn. unfold step_retain, retain_ok, retain_empty in *. rewrite G in *.
   destruct (filter (retain_keeps ids) (x_ckpts x)) as [|k0 ks] eqn:FK; [discriminate|]. rewrite <- FK in *.
   set (x1 := with_ck x (filter (retain_keeps ids) (x_ckpts x)) (x_pending x ++ filter (fun c => negb (retain_keeps ids c)) (x_ckpts x)) (x_cktasks x)) in *.
-  pose proof (save_ok_removes_pending_wals w x1 f c OK) as D.
+  pose proof (fun H => save_ok_removes_pending_wals w x1 f c n OK H Hn) as D.
   destruct (save_list_f w x1 f) as [[w1 x2] ok]. cbn [fst snd] in *. unfold set_db. cbn [g_fs]. apply D.
   unfold x1, with_ck. cbn [x_pending]. apply in_or_app. right. apply filter_In. split; [exact Hc|]. rewrite NK. reflexivity.
 Qed.
